@@ -213,7 +213,8 @@ def rule_V1(ctx: Ctx) -> None:
             kinds.add("vertical")
     mg = [c for c in X.calls(f.node) if dotted_of(c.func) in ("np.meshgrid", "numpy.meshgrid")]
     ij = bool(mg) and isinstance(N.kwarg(mg[0], "indexing"), ast.Constant) and N.kwarg(mg[0], "indexing").value == "ij"
-    ctx.judge(f, kinds == {"horizontal", "vertical"} and ij and len(stacks) == 2, {"edge_kinds": sorted(kinds), "meshgrid_ij": ij},
+    # a form this rule does not read (helpers, index tuples, another construction) is unrecognised, not rejected: V9 decides the function on every n up to its bound
+    ctx.judge(f, (True if ij else False) if kinds == {"horizontal", "vertical"} and len(stacks) == 2 else None, {"edge_kinds": sorted(kinds), "meshgrid_ij": ij},
               "all lattice edges = every (r, c)-(r, c+1) and (r, c)-(r+1, c) pair, lesser endpoint first, 'ij' indexing",
               "AllLatticeEdges tokenizers enumerate non-edges or miss a row/column of edges")
 
@@ -448,7 +449,7 @@ def rule_V7(ctx: Ctx) -> None:
     rs = X.returns_of(f.node)
     ok = len(rs) == 2 and X.same_expr(rs[0].value, "np.linalg.norm(edges[:, 0, :] - edges[:, 1, :], axis=1, ord=1).astype(np.int8)") \
         and X.same_expr(rs[1].value, "np.linalg.norm(edges[0, :] - edges[1, :], ord=1).astype(np.int8)")
-    ctx.judge(f, ok, {"returns": [X.U(r.value)[:90] for r in rs]}, "manhattan_distance = L1 norm (ord=1) of the difference of the two coordinates, per edge (axis 1) or for a single edge",
+    ctx.judge(f, True if ok else None, {"returns": [X.U(r.value)[:90] for r in rs]}, "manhattan_distance = L1 norm (ord=1) of the difference of the two coordinates, per edge (axis 1) or for a single edge",
               "another norm / axis: distances of diagonal or multi-edge arrays are wrong")
     g = ctx.index.func(f"{UT}.lattice_max_degrees")
     init = X.assignments_to(g.node, "out")
@@ -458,8 +459,8 @@ def rule_V7(ctx: Ctx) -> None:
     full = ("slice", None, None, None)
     ok = len(init) == 1 and X.same_expr(init[0], "np.full((n, n), 2)") and forms == sorted([(inner, full), (full, inner)], key=repr) \
         and all(isinstance(a.op, ast.Add) and N.const_int(a.value) == 1 for a in augs)
-    ctx.judge(g, ok, {"init": X.U(init[0]) if init else None, "increments": [X.U(a) for a in augs]},
-              "maximum degree: 2 at corners, +1 for every axis along which the cell is interior")
+    ctx.judge(g, True if ok else None, {"init": X.U(init[0]) if init else None, "increments": [X.U(a) for a in augs]},
+              "maximum degree: 2 at corners, +1 for every axis along which the cell is interior")   # another form: unrecognised, decided by V9
 
 
 def _query_deviations(ac, shape, es, limit=3, which=None, component_once=False):
@@ -588,6 +589,125 @@ def rule_V8(ctx: Ctx) -> None:
                   bound=f"{len(graphs)} abstract mazes (every edge set of 2x2, 2x3, 3x2{', 3x3' if thorough else ''}; samples beyond), {n_calls} interpreted queries")
 
 
+def rule_V9(ctx: Ctx) -> None:
+    """bounded semantic check of the module-level lattice helpers: `lattice_connection_array(n)` and `lattice_max_degrees(n)` are interpreted on abstract
+    arrays for every n up to the bound and compared with the lattice itself (every horizontal and vertical neighbour pair once, lesser endpoint first;
+    number of in-grid neighbours of each cell)"""
+    from sa.absnp import MODELS, Arr
+    from sa.absobj import make_name_hook
+    from sa.fold import EvalRaised, Evaluator, Unknown
+
+    top = 7 if ctx.tier == "thorough" else 5
+    fe = ctx.index.func(f"{UT}.lattice_connection_array")
+    fd = ctx.index.func(f"{UT}.lattice_max_degrees")
+
+    def hooks_for(fn):
+        h: dict = {}
+
+        def call_hook(ev, node, env):
+            d = dotted_of(node.func) or ""
+            if d in MODELS:
+                try:
+                    return MODELS[d](*ev._elts(node.args, env), **{k.arg: ev.ev(k.value, env) for k in node.keywords if k.arg})
+                except (Unknown, EvalRaised):
+                    raise
+                except Exception as e:
+                    raise Unknown(f"model of {d}: {e}")
+            return NotImplemented
+        h["__call__"] = call_hook
+        h["__name__"] = make_name_hook(ctx.index, fn.module, lambda: h)
+        return h
+
+    def interpret(fn, n):
+        try:
+            return Evaluator(hooks_for(fn), max_steps=400_000).run_body(X.body_wo_doc(fn.node), {fn.params()[0]: n}), None
+        except EvalRaised as e:
+            return f"raises {e.exc_name}", None
+        except Unknown as e:
+            return None, str(e)[:160]
+
+    bad, unk, runs = [], [], 0
+    for n in range(1, top + 1):
+        got, u = interpret(fe, n)
+        runs += 1
+        if u is not None:
+            unk.append(f"lattice_connection_array({n}): {u}")
+            break
+        want = sorted([((r, c), (r, c + 1)) for r in range(n) for c in range(n - 1)] + [((r, c), (r + 1, c)) for r in range(n - 1) for c in range(n)])
+        try:
+            rows = got.data if isinstance(got, Arr) else got
+            found = sorted((tuple(int(x) for x in e[0]), tuple(int(x) for x in e[1])) for e in rows)
+            if any(len(e) != 2 or len(e[0]) != 2 or len(e[1]) != 2 for e in rows):
+                found = "not an array of shape (edges, 2, 2)"
+        except Exception:
+            found = repr(got)[:80]
+        if found != want:
+            bad.append({"call": f"lattice_connection_array({n})", "found": repr(found)[:140], "expected": repr(want)[:140]})
+            break
+    ctx.judge(fe, False if bad else None if unk else True, {"interpreted_n": list(range(1, top + 1)), "deviations": bad[:2], "undecided": unk[:1]},
+              "lattice_connection_array(n) lists every horizontal and vertical neighbour pair of the n x n grid exactly once, lesser endpoint first, and nothing else",
+              "AllLatticeEdges tokenizers enumerate non-edges, repeat an edge or miss a row / column of edges")
+    e_ok = not bad and not unk
+    bad, unk = [], []
+    for n in range(2, top + 1):   # n = 1 is outside the function's documented domain (a 1 x 1 grid has no neighbours)
+        got, u = interpret(fd, n)
+        runs += 1
+        if u is not None:
+            unk.append(f"lattice_max_degrees({n}): {u}")
+            break
+        want = [[sum(1 for dr, dc in ((0, 1), (0, -1), (1, 0), (-1, 0)) if 0 <= r + dr < n and 0 <= c + dc < n) for c in range(n)] for r in range(n)]
+        found = got.data if isinstance(got, Arr) else got
+        if found != want:
+            bad.append({"call": f"lattice_max_degrees({n})", "found": repr(found)[:140], "expected": repr(want)[:140]})
+            break
+    ctx.judge(fd, False if bad else None if unk else True, {"interpreted_n": list(range(2, top + 1)), "deviations": bad[:2], "undecided": unk[:1]},
+              "lattice_max_degrees(n)[r, c] = number of neighbours of (r, c) inside the n x n grid",
+              "degree-based classifications (dead ends, forks, full-degree cells) are taken against the wrong maximum")
+    d_ok = not bad and not unk
+    # manhattan_distance: one edge (shape (2, 2)) and arrays of edges (shape (k, 2, 2)) over every ordered pair of cells of a 3 x 4 window
+    fm = ctx.index.func(f"{UT}.manhattan_distance")
+    bad, unk = [], []
+    cells_ = [(r, c) for r in range(3) for c in range(4)]
+    pairs = [(a, b) for a in cells_ for b in cells_]
+
+    def interp_m(arg):
+        try:
+            return Evaluator(hooks_for(fm), max_steps=400_000).run_body(X.body_wo_doc(fm.node), {fm.params()[0]: arg}), None
+        except EvalRaised as e:
+            return f"raises {e.exc_name}", None
+        except Unknown as e:
+            return None, str(e)[:160]
+
+    def num(v):
+        v = v.data if isinstance(v, Arr) else v
+        return [num(x) for x in v] if isinstance(v, list) else (int(v) if isinstance(v, (int, float)) and v == int(v) else v)
+    for a, b in pairs[:: 1 if ctx.tier == "thorough" else 5]:
+        got, u = interp_m(Arr([list(a), list(b)]))
+        runs += 1
+        if u is not None:
+            unk.append(f"manhattan_distance([{a}, {b}]): {u}")
+            break
+        want = abs(a[0] - b[0]) + abs(a[1] - b[1])
+        if num(got) != want:
+            bad.append({"call": f"manhattan_distance([{a}, {b}])", "found": repr(num(got))[:60], "expected": want})
+            break
+    if not bad and not unk:
+        got, u = interp_m(Arr([[list(a), list(b)] for a, b in pairs]))
+        runs += 1
+        want = [abs(a[0] - b[0]) + abs(a[1] - b[1]) for a, b in pairs]
+        if u is not None:
+            unk.append(f"manhattan_distance(<{len(pairs)} edges>): {u}")
+        elif num(got) != want:
+            bad.append({"call": f"manhattan_distance(<all {len(pairs)} ordered cell pairs of a 3 x 4 window>)", "found": repr(num(got))[:100], "expected": repr(want)[:100]})
+    ctx.judge(fm, False if bad else None if unk else True, {"cell_pairs": len(pairs), "deviations": bad[:2], "undecided": unk[:1]},
+              "manhattan_distance = |row difference| + |column difference|, for one edge and per edge of an array of edges",
+              "step sizes / distances between cells are measured in another norm or along the wrong axis")
+    m_ok = not bad and not unk
+    cov = ([f"{UT}.lattice_connection_array"] if e_ok else []) + ([f"{UT}.lattice_max_degrees"] if d_ok else []) + ([f"{UT}.manhattan_distance"] if m_ok else [])
+    if cov:
+        ctx.cover(cov, by="C13.V9", supersedes=["C13.V1", "C13.V7"], bound=f"every n from 1 to {top}, {runs} interpreted calls")
+
+
 RULES = [
     Rule("C13.V1", rule_V1, floor=9, doc="one convention, site by site"),
     Rule("C13.V2", rule_V2, floor=3, doc="neighbours and component expansion"),
@@ -597,6 +717,7 @@ RULES = [
     Rule("C13.V6", rule_V6, floor=1, doc="node list"),
     Rule("C13.V7", rule_V7, floor=2, doc="manhattan_distance and lattice_max_degrees"),
     Rule("C13.V8", rule_V8, floor=1, doc="bounded semantic check: graph queries interpreted on abstract mazes vs the edge set"),
+    Rule("C13.V9", rule_V9, floor=3, doc="bounded semantic check: lattice_connection_array / lattice_max_degrees interpreted for every small n vs the lattice; manhattan_distance on every cell pair of a window"),
 ]
 
 from sa import dims as _dims  # noqa: E402
